@@ -5,6 +5,7 @@ package recfs
 import (
 	"errors"
 	"fmt"
+	"io"
 	"os"
 	"syscall"
 	"time"
@@ -200,6 +201,9 @@ func (f *File) Read(p []byte) (int, error) {
 	}
 	if k == "short" && len(p) > 1 {
 		return f.File.Read(p[:len(p)/2])
+	}
+	if k == "eof" { // the file ends here although its size said otherwise
+		return 0, io.EOF
 	}
 	return f.File.Read(p)
 }
